@@ -5,26 +5,32 @@
 package helpers
 
 //@ func Uint64IsNonzero
+//@   ct
 //@   props C01 C02 C17
 //@   ensures result == ite(u == 0, 0, 1)
 //@
 //@ func Uint64IsZero
+//@   ct
 //@   props C01 C02 C17
 //@   ensures result == ite(u == 0, 1, 0)
 //@
 //@ func Uint64Equal
+//@   ct
 //@   props C01 C02 C17
 //@   ensures result == ite(a == b, 1, 0)
 //@
 //@ func FiatLimbsAreEqual
+//@   ct
 //@   props C01 C02 C17
 //@   ensures result == ite(a[0] == b[0] && a[1] == b[1] && a[2] == b[2] && a[3] == b[3], 1, 0)
 //@
 //@ func BytesToSaturated
+//@   ct
 //@   props C01 C02
 //@   ensures e4(result) == os2ip(src)
 //@
 //@ func PutSaturatedToBytes
+//@   ct
 //@   props C01 C02
 //@   ensures os2ip(dst) == old(e4(src))
 //@   ensures result == dst[0:32]
